@@ -127,6 +127,32 @@ def toBocSteps (g : Dag) (root : Nat) (hasIdx hasCrc hasCache : Bool) : Nat := (
 /-- hashing work at construction: one pass over the references per significant level (≤ 4), per distinct cell -/
 def hashWork (g : Dag) : Nat := sumTo (fun v => 4 * (1 + deg g v)) g.length
 
+/-! ### `Cell.__init__` = `resolve_mask` + `calculate_hashes`, one call per distinct cell
+
+The constructor never descends into the referenced cells: it reads their cached `level_mask`, `_depths[i]`, `_hashes[i]`
+(`get_depth` / `get_hash` are list lookups).  Building a DAG = one constructor call per distinct cell, children first. -/
+
+/-- loop iterations of one constructor call: the `for r in self.refs` loop of `resolve_mask`, then per iteration of
+`for li in range(level + 1)` (`lv` of them, `level ≤ 3`): the iteration itself, the depth loop and the hash loop over the
+references.  (Upper bound: insignificant / skipped levels `continue` before the two inner loops.) -/
+def ctorSteps (lv d : Nat) : Nat := d + lv * (1 + 2 * d)
+
+/-- bytes fed to SHA-256 by one constructor call: per level the 2 descriptor bytes + the data (level 0; `size` counts
+descriptors + data) or the previous 32-byte hash (higher levels), then 2 + 32 bytes per reference -/
+def ctorBytes (lv d size : Nat) : Nat := lv * (max size 34 + 34 * d)
+
+/-- constructing every cell of the DAG once (`lv v` = levels hashed for cell `v`) -/
+def buildSteps (lv : Nat → Nat) (g : Dag) : Nat := sumTo (fun v => ctorSteps (lv v) (deg g v)) g.length
+def buildBytes (lv : Nat → Nat) (g : Dag) : Nat :=
+  sumTo (fun v => ctorBytes (lv v) (deg g v) ((g[v]?.map (·.size)).getD 0)) g.length
+
+/-- Σ of descriptor + data bytes over the distinct cells -/
+def cellBytes (g : Dag) : Nat := sumTo (fun v => (g[v]?.map (·.size)).getD 0) g.length
+
+/-- for contrast: hashing WITHOUT the per-cell cache (recompute the children's hashes on every path, the way the recursive
+`order` before 563b428 walked every path): constructor calls from cell `v`, fuel = depth -/
+def rehashCalls (g : Dag) : Nat → Nat → Nat := oldOrderCalls g
+
 /-! ## 3. BoC parsing -/
 
 /-- python `bs[a:b]` -/
